@@ -125,3 +125,103 @@ R("c16-r-flag-guard-first", "C16", [(MSG, '''        if self._category != Messag
 ''')])
 R("c16-r-callbacks-for-loop", "C16", [(MDEP, "        [await c() for c in self._callbacks]  # execute in order\n",
                                        "        for c in self._callbacks:\n            await c()\n")])
+
+# ----------------------------------------------------------------------------------------------- C02 / C04 / C06 (processor ladder)
+PROC = "repid/_processor.py"
+RUN = "repid/_runner.py"
+PAR = "repid/data/_parameters.py"
+M("c02-race-fix-reverted", ["C02", "C03"], [(RUN, "if self.cancel_event.is_set() and not process_task.done():", "if self.cancel_event.is_set():")], "R-C02-RACE")
+M("c02-ladder-reschedule-before-retry", ["C02", "C04", "C06"], [(PROC, '''        if not result.success and parameters.retries.already_tried < parameters.retries.max_amount:
+            await self._conn.message_broker.requeue(
+                key,
+                payload,
+                parameters._prepare_retry(actor.retry_policy(parameters.retries.already_tried + 1)),
+            )
+        # rescheduling (deferred)
+        elif parameters.delay.defer_by is not None or parameters.delay.cron is not None:
+            await self._conn.message_broker.requeue(
+                key,
+                payload,
+                parameters._prepare_reschedule(),
+            )
+''', '''        if parameters.delay.defer_by is not None or parameters.delay.cron is not None:
+            await self._conn.message_broker.requeue(
+                key,
+                payload,
+                parameters._prepare_reschedule(),
+            )
+        elif not result.success and parameters.retries.already_tried < parameters.retries.max_amount:
+            await self._conn.message_broker.requeue(
+                key,
+                payload,
+                parameters._prepare_retry(actor.retry_policy(parameters.retries.already_tried + 1)),
+            )
+''')], "R-C02-LADDER")
+M("c02-ladder-budget-le", ["C02", "C04"], [(PROC, "parameters.retries.already_tried < parameters.retries.max_amount:", "parameters.retries.already_tried <= parameters.retries.max_amount:")], None)
+M("c02-ladder-cron-forgotten", ["C02", "C06"], [(PROC, "elif parameters.delay.defer_by is not None or parameters.delay.cron is not None:", "elif parameters.delay.defer_by is not None:")], None)
+M("c02-ladder-and-instead-of-or", ["C02", "C06"], [(PROC, "elif parameters.delay.defer_by is not None or parameters.delay.cron is not None:", "elif parameters.delay.defer_by is not None and parameters.delay.cron is not None:")], None)
+M("c02-ladder-ack-on-failure", ["C02"], [(PROC, '''        elif result.success:
+            await self._conn.message_broker.ack(key)
+        # nack
+        else:
+            await self._conn.message_broker.nack(key)''', '''        elif result.success:
+            await self._conn.message_broker.ack(key)
+        # nack
+        else:
+            await self._conn.message_broker.ack(key)''')], "R-C02-LADDER")
+M("c02-requeue-raw-payload", ["C02", "C07"], [(PROC, "await self.report_to_broker(actor, key, payload, parameters, result)", "await self.report_to_broker(actor, key, raw_payload, parameters, result)")], None)
+M("c02-policy-without-plus-one", ["C02", "C04"], [(PROC, "parameters._prepare_retry(actor.retry_policy(parameters.retries.already_tried + 1)),", "parameters._prepare_retry(actor.retry_policy(parameters.retries.already_tried)),")], None)
+M("c02-eager-still-reports", ["C02", "C13"], [(PROC, '''        if result.reporting_done:  # actor has finished gracefully, but no action is required
+            self._processed += 1
+            return
+''', '''        if result.reporting_done:  # actor has finished gracefully, but no action is required
+            self._processed += 1
+''')], "R-C02-ONCE")
+M("c02-convert-inputs-outside-try", ["C02", "C08"], [(PROC, '''        try:
+            unresolved_dependencies: dict[str, Coroutine] = {}
+''', '''        args, kwargs = actor.converter.convert_inputs(payload)
+        try:
+            unresolved_dependencies: dict[str, Coroutine] = {}
+'''), (PROC, '''            dependency_kwargs = dict(zip(unresolved_dependencies_names, resolved))
+
+            args, kwargs = actor.converter.convert_inputs(payload)
+''', '''            dependency_kwargs = dict(zip(unresolved_dependencies_names, resolved))
+
+''')], "R-C02-CATCH")
+M("c02-no-timeout", ["C02"], [(PROC, '''            _result = await asyncio.wait_for(
+                actor.fn(*args, **kwargs, **dependency_kwargs),
+                timeout=time_limit,
+            )''', '''            _result = await actor.fn(*args, **kwargs, **dependency_kwargs)''')], "R-C02-CATCH")
+M("c02-catch-baseexception", ["C02", "C03"], [(PROC, "        except Exception as exc:  # noqa: BLE001\n            exception = exc", "        except BaseException as exc:  # noqa: BLE001\n            exception = exc")], "R-C02-CATCH")
+M("c02-noaction-reporting-false", ["C02"], [(PROC, '''                finished_when=time.time_ns(),
+                reporting_done=True,''', '''                finished_when=time.time_ns(),
+                reporting_done=False,''')], "R-C02-CATCH")
+M("c02-success-true-in-handler", ["C02"], [(PROC, "            exception = exc\n            success = False\n", "            exception = exc\n            success = True\n")], "R-C02-CATCH")
+M("c02-reject-without-cancel", ["C02", "C14"], [(RUN, "            process_task.cancel()\n            await self._conn.message_broker.reject(key)", "            await self._conn.message_broker.reject(key)")], "R-C02-RACE")
+R("c02-r-done-via-pending", ["C02", "C03"], [(RUN, '''        await asyncio.wait(
+            {self.cancel_event_task, process_task},
+            return_when=asyncio.FIRST_COMPLETED,
+        )
+        if self.cancel_event.is_set() and not process_task.done():''', '''        _, pending = await asyncio.wait(
+            {self.cancel_event_task, process_task},
+            return_when=asyncio.FIRST_COMPLETED,
+        )
+        if self.cancel_event.is_set() and process_task in pending:''')])
+R("c02-r-ladder-nested-ifs", ["C02", "C04", "C06"], [(PROC, '''        elif result.success:
+            await self._conn.message_broker.ack(key)
+        # nack
+        else:
+            await self._conn.message_broker.nack(key)''', '''        else:
+            if not result.success:
+                await self._conn.message_broker.nack(key)
+            else:
+                await self._conn.message_broker.ack(key)''')])
+R("c02-r-ladder-locals", ["C02", "C04", "C06"], [(PROC, '''        if not result.success and parameters.retries.already_tried < parameters.retries.max_amount:
+            await self._conn.message_broker.requeue(
+                key,
+                payload,
+                parameters._prepare_retry(actor.retry_policy(parameters.retries.already_tried + 1)),
+            )''', '''        retries = parameters.retries
+        if not result.success and retries.max_amount > retries.already_tried:
+            new_params = parameters._prepare_retry(actor.retry_policy(1 + retries.already_tried))
+            await self._conn.message_broker.requeue(key, payload, new_params)''')])
